@@ -237,6 +237,7 @@ spif_mbuff_init_from_fp(spif_mbuff_t self, FILE *fp)
 
         if (fread(self->buff, file_size, 1, fp) < 1) {
             FREE(self->buff);
+            self->len = self->size = 0;
             return FALSE;
         }
     }
@@ -298,6 +299,7 @@ spif_mbuff_init_from_fd(spif_mbuff_t self, int fd)
         }
         if (got < 1) {
             FREE(self->buff);
+            self->len = self->size = 0;
             return FALSE;
         }
         self->len = got;
